@@ -48,3 +48,5 @@ def run(ctx, R):
     portable.rule_int(ctx, R, astq.Facts(ctx, 'K1'))
     driver.rule_bind_excl(ctx, R)
     x86hsem.rule_hsem(ctx, R)
+    jit.rule_lw_value(ctx, R, 'rvv')
+    jit.rule_cfr_x86(ctx, R, F)    # CFROUND: the x86 JIT and the interpreter apply the same rule (rotation, v2 test, control word)
